@@ -92,3 +92,17 @@ package multiparty
 //@   ensures val(opOut.Value[0]) == old(val(ctIn.Value[0])) + old(val(combined.Value))
 //@   ensures val(opOut.Value[1]) == old(val(ctIn.Value[1]))
 //@   ensures iff(opOut.IsNTT, ctIn.IsNTT)
+
+//@ afunc EvaluationKeyGenProtocol.AggregateShares
+//@   trusted aggregation over the gadget digit matrix (nested loops over rows) is not yet under contract; nothing is assumed about its effect
+
+//@ afunc GaloisKeyGenProtocol.AggregateShares
+//@   property C14
+//@   ensures implies(share1.GaloisElement != share2.GaloisElement, !isnil(err))
+//@   ensures implies(isnil(err), share3.GaloisElement == share1.GaloisElement && share1.GaloisElement == share2.GaloisElement)
+
+// refusal clause of property C15: fewer than t active parties are refused with an error
+//@ afunc Combiner.GenAdditiveShare#refusal
+//@   property C15
+//@   requires len(activesPoints) < cmb.threshold
+//@   ensures !isnil(err)
